@@ -102,7 +102,7 @@ func subseq(got, want []string) bool {
 }
 
 func c02(run *ev.Run) int {
-	run.SetRule("cases = (HTTP version x protocol x codec x kind) x code 1..16 x 16 message text classes, with error source {handler *Error, plain error, interceptor before/after, coded error wrapping a context error, coded error inside a multi-error}, handlers with default settings and with compress-min 64 against gzip-sending clients, client contexts with and without a deadline, details k in {0,1,3}, metadata multimap (one case in three with handler-set response headers/trailers under the same keys) and messages-before-error in {0,1,3} drawn per case from the seed (thorough: details and before enumerated); distinct by (config, code, text class, source, k, before); error causes also wrap io.EOF / io.ErrUnexpectedEOF")
+	run.SetRule("cases = (HTTP version x protocol x codec x kind) x code 1..16 x 16 message text classes, with error source {handler *Error, plain error, interceptor before/after, coded error wrapping a context error, coded error inside a multi-error}, handlers with default settings and with compress-min 64 against gzip-sending clients, client contexts with and without a deadline, details k in {0,1,3}, metadata multimap (one case in three with handler-set response headers/trailers under the same keys) and messages-before-error in {0,1,3} drawn per case from the seed (thorough: details and before enumerated); distinct by (config, code, text class, source, k, before); error causes also wrap io.EOF / io.ErrUnexpectedEOF; a quarter of the cases over a transport whose response bodies return an error from Close after closing")
 	run.Assume("messages are valid UTF-8; metadata is printable ASCII without leading/trailing blanks under non-reserved keys; gRPC over HTTP/1.1 keeps trailers under net/http's 4 KiB trailer limit")
 	ic := &c02Icept{before: map[string]error{}, after: map[string]error{}}
 	srv := svc.NewServer(connect.WithInterceptors(ic))
